@@ -238,16 +238,81 @@ def classify_exc(e):
 # ------------------------------------------------------------------------------------------
 # implementation side
 
-def impl_schedule(obj, method, perm, shuffle_log=None, **kw):
+def impl_schedule(obj, method, perm, shuffle_log=None, scheduler=None, **kw):
     """Scheduler(method, allow_permutation=perm).schedule(obj, **kw) with sorted sets and the given
-    shuffle recorder.  Returns (status, result)."""
+    shuffle recorder; `scheduler`: an existing Scheduler object to be reused (a history of calls on one
+    object) instead of a fresh one.  Returns (status, result)."""
     _, _, Scheduler, _, _ = _mods()
     try:
         with patched(shuffle_log):
-            r = Scheduler(method, allow_permutation=perm).schedule(obj, **kw)
+            sch = scheduler if scheduler is not None else Scheduler(method, allow_permutation=perm)
+            r = sch.schedule(obj, **kw)
         return "ok", r
     except Exception as e:      # canonicalised by the caller
         return classify_exc(e), None
+
+
+# ------------------------------------------------------------------------------------------
+# histories: several schedule() calls on ONE Scheduler object
+#
+# Modelled contract: `Scheduler.schedule` is a function of its arguments, of the two constructor settings and of the
+# shuffle outcomes -- the model is stateless, so every call of a history must return what a fresh Scheduler returns.
+# A call is a dict
+#   {"kind": "gate",  "N", "gates": specs, "shuf": recorded shuffles or None, "repeat": r, "cycles": bool, "as_circuit": bool}
+#   {"kind": "pulse", "ins": specs, "durs": numerators, "den", "shuf", "cycles": bool}
+# (`cycles`: the call asks for `return_cycles_list=True`).
+
+class SchedulerChain:
+    """one Scheduler object per setting, reused for up to `maxlen` consecutive calls; `calls(key)` is the history so far"""
+
+    def __init__(self, maxlen=6):
+        self.maxlen = maxlen
+        self.obj, self.hist = {}, {}
+
+    def get(self, method, perm, need=1):
+        """the Scheduler object to use for the next `need` calls of this setting and the list recording its history"""
+        _, _, Scheduler, _, _ = _mods()
+        key = (method, bool(perm))
+        if key not in self.obj or len(self.hist[key]) + need > self.maxlen:
+            self.obj[key] = Scheduler(method, allow_permutation=perm)
+            self.hist[key] = []
+        return self.obj[key], self.hist[key]
+
+
+def run_call(scheduler, call, method, perm, gate_of=None):
+    """one call of a history on the given Scheduler object -> (status, result)"""
+    _, Instruction, _, _, _ = _mods()
+    mk = gate_of or make_gate
+    log = ShuffleLog(replay=call["shuf"]) if call.get("shuf") is not None else None
+    kw = {}
+    if call.get("cycles"):
+        kw["return_cycles_list"] = True
+    if call["kind"] == "gate":
+        if not call["gates"]:
+            obj = []
+        elif call.get("as_circuit"):
+            obj = make_circuit(call["N"], call["gates"])
+        else:
+            obj = [mk(s) for s in call["gates"]]
+        if call.get("repeat"):
+            kw["repeat_num"] = call["repeat"]
+        else:
+            kw["random_shuffle"] = log is not None
+    else:
+        try:
+            obj = [Instruction(mk(s), duration=d / call["den"]) for s, d in zip(call["ins"], call["durs"])]
+        except Exception as e:
+            return "other:" + type(e).__name__, None
+        kw["random_shuffle"] = log is not None
+    return impl_schedule(obj, method, perm, log, scheduler=scheduler, **kw)
+
+
+def cycles_of(call, result):
+    """the cycles list of a gate-mode result (the list itself, or derived from gate_cycle_indices)"""
+    if call.get("cycles"):
+        return result
+    idx = list(result)
+    return [[i for i, c in enumerate(idx) if c == k] for k in range(max(idx) + 1)] if idx else []
 
 
 def impl_edges(instrs, perm):
